@@ -9,6 +9,7 @@ R26.1 panic_sites_reach: the explicit panic constructs (unwrap/expect on Option/
 R26.2 error discipline of the reader: the semantic actions of the grammar reader (parol_grammar.rs) and
       to_grammar_config.rs return Result; `?`/bail! are the reporting idiom - these two modules must stay within their
       frozen site counts *and* every site there is reviewed (no baseline-unreviewed entries allowed).
+R26.5 the per-k analysis caches have a slot for every admissible k (const relation, = C06 R06.4).
 R26.4 unsigned-subtraction inventory on the same reachable set: each overflow-checked `a - b` is discharged by a dominating
       guard a >= b (subguard.py) or reviewed in SUB_TABLE.
 Other implicit panics (indexing, additions, RefCell borrows, stack overflow) depend on value ranges: NOT decided.
@@ -121,6 +122,10 @@ def check(ctx):
 
     from . import subguard
     subguard.inventory(ctx, ctx.facts(), cg, seen, "R26.4", SUB_TABLE, 6, what="grammar-processing path")
+
+    # R26.5 = C06 R06.4: the per-k caches have MAX_K + 1 slots (an index panic otherwise; added after seed C26-b)
+    from . import c06
+    c06.cache_capacity(ctx, ctx.facts(), rule="R26.5")
 
     # R26.3: reviewed-safe entries that rest on another property's rule are re-evaluated here
     # (the unwrap in Cfg::get_terminal_index_function cannot fire only while the lookup key equals the de-duplication key)
